@@ -17,7 +17,7 @@ import shutil
 
 import vlib
 
-PROPS = ['Rangers.Props.C17', 'Rangers.Props.C17B']
+PROPS = ['Rangers.Props.C17', 'Rangers.Props.C17B', 'Rangers.Props.C17C']
 DRIVERS = ['C17']
 META = dict(
     level='proof',
